@@ -7,7 +7,7 @@ import traceback
 import paramiko
 from paramiko.common import MSG_KEXINIT, MSG_NAMES, MSG_NEWKEYS
 
-from vf import core, pair
+from vf import core, pair, tap
 
 META = dict(
     title="re-exchange transparent to in-flight traffic",
@@ -32,9 +32,27 @@ META = dict(
     assumptions=["tap order of outbound records equals wire order (tap lock outside the packetizer write lock)"],
 )
 
-KINDS_FROM_CLIENT = ["data", "exec", "pty", "env", "shell", "subsys-unknown", "req-unknown", "eof", "close",
+KINDS_FROM_CLIENT = ["data", "exec", "exec-writes", "pty", "env", "shell", "subsys-unknown", "req-unknown", "eof", "close",
                      "global-wait", "global-forward", "keepalive", "open-session", "adjust"]
 KINDS_FROM_SERVER = ["data", "stderr", "exit-status", "eof", "close", "global-wait", "keepalive", "adjust"]
+
+
+WRITE_CHUNKS = [bytes([65 + i]) * 200 for i in range(6)]
+
+
+class WritingServer(pair.LogServer):
+    """exec "vf-write": the handler itself (i.e. the server's transport thread) writes six stdout
+    chunks, one stderr chunk and an exit status before it answers the request."""
+
+    def check_channel_exec_request(self, channel, command):
+        if command == b"vf-write":
+            for c in WRITE_CHUNKS:
+                channel.send(c)
+            channel.send_stderr(b"e" * 100)
+            channel.send_exit_status(5)
+            self.rec.add(kind="cb", name="exec-writes", args=(channel.get_id(),), result=True)
+            return True
+        return super().check_channel_exec_request(channel, command)
 
 
 def shards(tier):
@@ -56,6 +74,11 @@ def one_case(ctx, idx):
     trigger = rng.choice(["renegotiate", "renegotiate", "threshold"])
     pool = KINDS_FROM_CLIENT if peer == "c" else KINDS_FROM_SERVER
     kinds = sorted(set(rng.sample(pool, rng.randint(1, 3))))
+    if idx % 4 == 1:
+        # stratum: several messages produced by the initiator's *transport thread* inside its own
+        # kex window (a request handler that writes), so more than one message is deferred
+        init, peer = "s", "c"
+        kinds = sorted(set(rng.sample(KINDS_FROM_CLIENT, rng.randint(0, 2))) | {"exec-writes"})
     lat = rng.choice([0.005, 0.02, 0.05]) if mode == "latency" else 0.0
     senders = rng.randint(0, 2)  # extra user threads streaming data from the initiator
     ka = rng.choice([None, None, "init", "peer"]) if mode == "gate" else rng.choice([None, None, "lat-init", "lat-peer"])
@@ -71,8 +94,9 @@ def one_case(ctx, idx):
                 and _rng.random() < 0.3:
             time.sleep(0.002)
 
+    rec0 = tap.Recorder()
     p = pair.Pair(rng, client_cls=pair.WatchedTransport, server_cls=pair.WatchedTransport,
-                  on_send=dict(c=gap, s=gap))
+                  on_send=dict(c=gap, s=gap), recorder=rec0, server=WritingServer(rec0))
     threads = []
     try:
         if not p.start() or not p.auth():
@@ -82,7 +106,7 @@ def one_case(ctx, idx):
         for t in T.values():
             t.clear_to_send_timeout = 4.0
         chans = []
-        REQ_KINDS = ("exec", "pty", "env", "shell", "subsys-unknown", "req-unknown", "exit-status")
+        REQ_KINDS = ("exec", "exec-writes", "pty", "env", "shell", "subsys-unknown", "req-unknown", "exit-status")
         nreq = sum(1 for k in kinds if k in REQ_KINDS)
         for _ in range(3 + senders + nreq):
             chans.append(p.session())
@@ -118,6 +142,11 @@ def one_case(ctx, idx):
         p.wait_quiet(0.1, 5)
         mark = p.rec.snapshot()[-1]["n"] + 1
         d_peer_to_init = p.link.ab if peer == "c" else p.link.ba
+        if trigger == "threshold" and idx % 2 == 0:
+            # segmented delivery: the peer's packets reach the initiator in two pieces with a
+            # pause longer than its 0.1 s read poll, while its threshold re-key is pending
+            d_peer_to_init.stutter = (0.6, 0.13)
+            desc["segmented"] = True
         if mode == "gate":
             d_peer_to_init.hold()
         else:
@@ -141,6 +170,8 @@ def one_case(ctx, idx):
                 run("stderr", lambda: pc.sendall_stderr(epayload))
             elif k == "exec":
                 run("exec", lambda: req_chans["exec"][pi].exec_command("true"))
+            elif k == "exec-writes":
+                run("exec-writes", lambda: req_chans["exec-writes"][pi].exec_command("vf-write"))
             elif k == "pty":
                 run("pty", lambda: req_chans["pty"][pi].get_pty())
             elif k == "env":
@@ -270,6 +301,17 @@ def one_case(ctx, idx):
                 reads["stdout"] = _drain(ic, len(expect["stdout"]))
             if "stderr" in expect:
                 reads["stderr"] = _drain(ic, len(expect["stderr"]), stderr=True)
+            if "exec-writes" in kinds:
+                wc = req_chans["exec-writes"][pi]
+                expect["handler-stdout"] = b"".join(WRITE_CHUNKS)
+                expect["handler-stderr"] = b"e" * 100
+                reads["handler-stdout"] = _drain(wc, 1200)
+                reads["handler-stderr"] = _drain(wc, 100, stderr=True)
+                wc.status_event.wait(10)
+                ctx.count("handler_written_streams_checked")
+                if wc.exit_status != 5:
+                    ctx.violation("exit status written by a request handler during the re-exchange not delivered",
+                                  "exit_status=%r, expected 5" % (wc.exit_status,), dict(case=desc))
         stop.set()
         for th in threads:
             th.join(20 if alive else 1)
@@ -302,6 +344,7 @@ def one_case(ctx, idx):
                 elif open_ and side == init and e["type"] >= 80:
                     inwin += 1
         ctx.count("connection_msgs_delivered_inside_kex_window", inwin)
+        ctx.count("segmented_deliveries_with_pause", d_peer_to_init.stutters)
         # ---- (b) completion / survival -------------------------------------
         if not alive:
             for side, t in T.items():
@@ -345,6 +388,14 @@ def one_case(ctx, idx):
                 # emit any message of type >= 50 (nothing is pending any more)
                 T[peer].set_keepalive(0)
                 T[init].set_keepalive(0)
+                # a keepalive callback may be in progress on a transport thread (descheduled under
+                # load); an answered round trip started now is handled by that same thread, so once
+                # it returns every keepalive started before the switch-off is on the wire
+                for t in (T[peer], T[init]):
+                    try:
+                        t.global_request("vf-sync@verif", wait=True)
+                    except Exception:
+                        pass
                 p.wait_quiet(0.3, 5)
                 m2 = p.rec.snapshot()[-1]["n"] + 1
                 ok = True
@@ -463,3 +514,5 @@ def run(ctx):
     ctx.require("back_to_back_reexchanges_completed", 100)
     ctx.require("connection_msgs_delivered_inside_kex_window", 20)
     ctx.require("idle_reexchanges_after_busy_one", 10)
+    ctx.require("handler_written_streams_checked", 8)
+    ctx.require("segmented_deliveries_with_pause", 5)
